@@ -33,7 +33,8 @@ class _NoInline(Domain):
     loop_bound = 3
 
     def resolve_call(self, st, call, walker):
-        return None
+        # private helpers extracted from the analysed code are followed
+        return walker.resolve_helper(st, call)
 
     def for_counts(self, st, node, itersym):
         return [0, 1]
@@ -88,14 +89,48 @@ def find_walk(f):
     return None
 
 
+def find_walk_via_generator(program, f, world):
+    """`for t in helper(param)` where helper is an in-repo generator that
+    contains the walk -> (loop of the helper, its work list, f's parameter)."""
+    params = set(f.params())
+    for n in ast.walk(f.node):
+        if not (isinstance(n, ast.For) and isinstance(n.iter, ast.Call)
+                and len(n.iter.args) >= 1):
+            continue
+        call = n.iter
+        g = None
+        d = dotted(call.func) or ''
+        if d.startswith('self.') and d.count('.') == 1:
+            g = program.resolve_method(world, d.split('.')[1])
+        else:
+            r = program.lookup(f.module, d)
+            if r and r[0] == 'func':
+                g = r[1]
+        if g is None or not any(isinstance(x, ast.Yield)
+                                for x in ast.walk(g.node)):
+            continue
+        fw = find_walk(g)
+        if fw is None:
+            continue
+        gparams = [p for p in g.params() if p not in ('self', 'cls')]
+        if fw[2] not in gparams:
+            continue
+        arg = call.args[gparams.index(fw[2])] if gparams.index(
+            fw[2]) < len(call.args) else None
+        if isinstance(arg, ast.Name) and arg.id in params:
+            return fw[0], fw[1], arg.id
+    return None
+
+
 def analyse_walk(program, rep, f, world):
     site = f.where
-    found = find_walk(f)
+    found = find_walk(f) or find_walk_via_generator(program, f, world)
     if found is None:
         return False
     loop, wl, seed = found
     has_effect = any(isinstance(x, (ast.Yield, ast.YieldFrom))
-                     for x in ast.walk(loop))
+                     for x in ast.walk(loop)) and any(
+        x is loop for x in ast.walk(f.node))
     w = Walker(program, _NoInline(program))
     exits = w.run(f, world)
     rep.count('paths', len(exits))
@@ -286,15 +321,19 @@ def run(program, rep, tier):
     for name in ENTRY:
         f = program.method('World', name)
         target = f
-        if find_walk(f) is None:
+        if find_walk(f) is None and find_walk_via_generator(
+                program, f, world) is None:
             # delegates (get -> _get): follow a single self.<m>(param) call
             for n in ast.walk(f.node):
                 if isinstance(n, ast.Call) and (dotted(n.func) or ''
                                                 ).startswith('self.'):
                     g = program.resolve_method(world, n.func.attr)
-                    if g is not None and find_walk(g) is not None:
+                    if g is not None and (find_walk(g) is not None or
+                                          find_walk_via_generator(
+                                              program, g, world) is not None):
                         target = g
-        if find_walk(target) is None:
+        if find_walk(target) is None and find_walk_via_generator(
+                program, target, world) is None:
             rep.inconclusive('C06.cover', f.where, f.node.name,
                              'no subclass walk (work list seeded with the '
                              'queried type and extended with '
